@@ -61,6 +61,66 @@ func ruleIdent1(c *Ctx) {
 			c.R.Check(strings.Contains(s, "Sel:FormatBool"), r.sp+"."+r.fn, "bool rendered by FormatBool", p, "true/false", "bools are not rendered by FormatBool")
 		}
 	}
+	// num: the text used for rendering and keying is injective on float64 (shortest round-trip form) and on int64
+	{
+		singleReturnCall := func(sp, fn string) (*ast.FuncDecl, *ast.CallExpr, types.Object) {
+			fd := c.FuncDecl(sp, fn)
+			if fd == nil {
+				c.R.Anchor(sp + "." + fn)
+				return nil, nil, nil
+			}
+			var param types.Object
+			if fd.Type.Params != nil && len(fd.Type.Params.List) == 1 && len(fd.Type.Params.List[0].Names) == 1 {
+				param = c.objOf(fd.Type.Params.List[0].Names[0])
+			}
+			if len(fd.Body.List) == 1 {
+				if r, ok := fd.Body.List[0].(*ast.ReturnStmt); ok && len(r.Results) == 1 {
+					if ce, ok := unparen(r.Results[0]).(*ast.CallExpr); ok {
+						return fd, ce, param
+					}
+				}
+			}
+			return fd, nil, param
+		}
+		constInt := func(e ast.Expr) (int64, bool) {
+			v := c.constOf(e)
+			if v == nil {
+				return 0, false
+			}
+			if i, ok := constant.Int64Val(constant.ToInt(v)); ok {
+				return i, true
+			}
+			return 0, false
+		}
+		if fd, ce, param := singleReturnCall("util", "FmtFloat"); fd != nil {
+			ok := false
+			if ce != nil && c.calleeName(ce) == "strconv.FormatFloat" && len(ce.Args) == 4 && param != nil {
+				id, isID := unparen(ce.Args[0]).(*ast.Ident)
+				prec, okP := constInt(ce.Args[2])
+				bits, okB := constInt(ce.Args[3])
+				f, okF := constInt(ce.Args[1])
+				ok = isID && c.objOf(id) == param && okP && prec == -1 && okB && bits == 64 && okF && strings.ContainsRune("feEgG", rune(f))
+			}
+			c.R.Check(ok, "util.FmtFloat", "float text is the shortest round-trip form of the value itself", fd.Pos(), "strconv.FormatFloat(n, fmt, -1, 64): distinct float64 values give distinct text, so non-integral numbers never render alike or collide as map keys", "non-integral numbers are not rendered by strconv.FormatFloat(n, fmt, -1, 64) of the value itself (rounded, truncated or pre-processed): distinct numbers can render alike and collide as map keys, and host maps with float keys lose entries")
+		}
+		if fd, ce, param := singleReturnCall("util", "FmtInt"); fd != nil {
+			ok := false
+			if ce != nil && c.calleeName(ce) == "strconv.FormatInt" && len(ce.Args) == 2 && param != nil {
+				id, isID := unparen(ce.Args[0]).(*ast.Ident)
+				base, okB := constInt(ce.Args[1])
+				ok = isID && c.objOf(id) == param && okB && base >= 2 && base <= 36
+			}
+			c.R.Check(ok, "util.FmtInt", "integer text is the exact positional form of the value itself", fd.Pos(), "strconv.FormatInt(n, base): injective", "integral numbers are not rendered by strconv.FormatInt of the value itself")
+		}
+		for _, r := range renderers {
+			s, p := arm(r.sp, r.fn, "KNum")
+			if s == "" {
+				continue
+			}
+			okNum := strings.Contains(s, "(SelectorExpr util Sel:FmtFloat)") && strings.Contains(s, "(SelectorExpr util Sel:FmtInt)")
+			c.R.Check(okNum, r.sp+"."+r.fn, "num rendered through util.FmtInt / util.FmtFloat", p, "the two injective formatters", "numbers are rendered/keyed by something other than util.FmtInt / util.FmtFloat")
+		}
+	}
 	// time
 	eq, _ := arm("val", "Equals", "KTime")
 	byInstant := strings.Contains(eq, "Sel:Equal)")
